@@ -121,7 +121,7 @@ func genC04(seed uint64, tier string, idx int) *Plan {
 			if g.r.chance(70) {
 				max = 120
 			}
-			frames = append(frames, g.mkFrame(ci, id, g.randSerial(), g.body(g.bodyLen(max), g.r.intn(3))))
+			frames = append(frames, g.mkFrame(ci, id, g.randSerial(), g.body(g.bodyLen(max), g.r.intn(4))))
 		}
 		g.connActor(ci, frames, g.segStyle(), 15)
 	}
